@@ -309,6 +309,29 @@ pub fn run(ctx: &mut Ctx) {
             }
         }
     }
+    // tracer size probes: long operand lists, every operand printing its own mark exactly once
+    for n in al::size_classes(ctx.tier_thorough) {
+        if n > 300 {
+            continue;
+        }
+        if !ctx.mine() {
+            continue;
+        }
+        let dd = json!({"a": 1});
+        for k in ["cat", "merge", "+", "*", "max", "min", "missing", "and", "or", "if", "?:"] {
+            ctx.edge();
+            let args: Vec<Value> = (0..n).map(|i| match k {
+                "missing" => json!({"log": format!("key{}", i)}),
+                "+" | "*" | "max" | "min" => json!({"log": [i % 7 + 1]}),
+                "or" => json!({"log": [if i + 1 == n { json!("last") } else { json!(0) }]}),
+                _ => json!({"log": format!("M{}", i)}),
+            }).collect();
+            ctx.check("tracer:size-probe", &op(k, args), &dd);
+        }
+        // nested: a long eager operand list inside another one
+        let inner: Vec<Value> = (0..n).map(|i| json!({"log": format!("I{}", i)})).collect();
+        ctx.check("tracer:size-probe:nested", &json!({"cat": [{"log": "before"}, {"merge": inner}, {"log": "after"}]}), &dd);
+    }
     // substitution law
     let es = exprs(ctx.tier_thorough);
     let evald: Vec<crate::exec::Obs> = es.iter().map(|e| ctx.exec(e, &d)).collect();
